@@ -441,6 +441,9 @@ func run(c Case) kit.Result {
 				}
 			} else {
 				if !errors.Is(err, os.ErrNotExist) {
+					if err != nil && cfg.Kind == "dynamic" && wasHAMT && loadedHAMT && cfg.MaxLinks > 0 && len(model) > cfg.MaxLinks && err.Error() == errMaxLinksText {
+						return kit.Result{Err: fmt.Errorf("%s: RemoveChild of a missing name: %v (HAMT reloaded from its node undercounts its entries and attempts a conversion to basic with %d entries > maxLinks %d)", when, err, len(model), cfg.MaxLinks), Known: "hamt-reload-totallinks"}
+					}
 					return kit.Fail("%s: RemoveChild of a missing name returned err=%v (want os.ErrNotExist)", when, err)
 				}
 				missRemoves++
